@@ -262,7 +262,8 @@ def rule_pure_projection(F, ev, R, config, rule="R-PURE-PROJECTION"):
             ev.fresh_ctx()
             b = ms["residuals"]
             v = ev.ret_val(Env(b))
-            x = v[1] if v[0] == "opt" else v
+            o = ev.as_opt(v) if v[0] in ("opt", "phi") else None   # early-return (`?`) and combinator forms coincide
+            x = o[1] if o else v
             M = flatten_arg(x)
             ok = M is not None and field_chain(M) == [cachef, cuse["resid"]]
             R.add(rule, config, b.key, "residuals=vec(cache.resid)@" + fl, ok,
